@@ -24,7 +24,26 @@
 #define VF_GETENV_VALUE ((char *) "1")
 #endif
 #include "undo_pre.h"
+#if defined(OP) && OP == 4
+/* STUB: (OP 4) strtoul is a decimal-only parser with the libc contract for *end (same code in the solver run and the native replay) */
+static unsigned long vf_strtoul(const char *s, char **end, int base);
+#define strtoul vf_strtoul
+#endif
 #include "lib/ext2fs/undo_io.c"
+#if defined(OP) && OP == 4
+#undef strtoul
+static unsigned long vf_strtoul(const char *s, char **end, int base)
+{
+	unsigned long v = 0;
+	int i;
+	(void) base;
+	for (i = 0; i < 10 && s[i] >= '0' && s[i] <= '9'; i++)
+		v = v * 10 + (unsigned long) (s[i] - '0');
+	if (end)
+		*end = (char *) s + i;
+	return v;
+}
+#endif
 #include "lib/ext2fs/io_manager.c"
 #include "env.c"
 #define NBLK 2
@@ -251,6 +270,56 @@ int main(void)
 				     "channel and backing channel agree on the new block size (captures convert blocks to bytes with it)");
 		}
 		PROP(n_uwrite_kb + n_uwrite_hdr + n_uwrite_sb + n_uflush + n_uother == 0, "set_blksize does not touch the undo file");
+	}
+#elif OP == 4
+	/* ---------------------------------------------------------------- undo_set_option("tdb_data_size") */
+	{
+		/* BOUND: the option argument is one of a few concrete strings (ARG): valid sizes, a size e2undo refuses, garbage, NULL; state as in OP 1 */
+#if ARG == 0
+		const char *arg = "4096";
+		const unsigned long val = 4096; const int ok = 1;
+#elif ARG == 1
+		const char *arg = "1024";
+		const unsigned long val = 1024; const int ok = 1;
+#elif ARG == 2
+		const char *arg = "512";
+		const unsigned long val = 512; const int ok = 0;
+#elif ARG == 3
+		const char *arg = "2097152";
+		const unsigned long val = 2097152; const int ok = 0;
+#elif ARG == 4
+		const char *arg = "40x6";
+		const unsigned long val = 0; const int ok = 0;
+#else
+		const char *arg = 0;
+		const unsigned long val = 0; const int ok = 0;
+#endif
+		ASSUME(IN.tds < (1ULL << 32));
+		ASSUME(IN.written >= -1 && IN.written <= 1);
+		if (IN.written != 0)
+			ASSUME(IN.tds != 0);
+		d->tdb_data_size = IN.tds;
+		d->tdb_written = IN.written;
+		rc = undo_io_manager->set_option(ch, "tdb_data_size", arg);
+		if (!ok) {
+			PROP(rc == EXT2_ET_INVALID_ARGUMENT, "tdb_data_size: a missing, malformed or out-of-range (1 KiB..1 MiB) size is refused");
+			PROP(d->tdb_data_size == IN.tds && d->tdb_written == IN.written, "a refused option changes nothing");
+		} else {
+			PROP(rc == 0, "tdb_data_size: a valid size is accepted");
+			if (IN.written == 1) {
+				/* the undo file exists (set up by a capture or loaded by a re-open): one block size per undo file */
+				PROP(d->tdb_data_size == IN.tds && d->tdb_written == 1,
+				     "once the undo file is set up or re-opened the option no longer changes its block size (one size per undo file)");
+			} else if (IN.written == 0) {
+				PROP(d->tdb_data_size == val, "before anything was captured the option fixes the undo block size");
+				PROP(d->tdb_written == -1, "a size fixed by option no longer follows set_blksize (state -1)");
+			} else {
+				PROP(d->tdb_written == -1 && (d->tdb_data_size == IN.tds || d->tdb_data_size == val),
+				     "an already option-fixed size stays option-fixed");
+			}
+		}
+		PROP(n_rset + n_uwrite_kb + n_uwrite_hdr + n_uwrite_sb + n_uflush + n_uother == 0, "the option touches neither channel");
+		(void) val;
 	}
 #elif OP == 2
 	/* ---------------------------------------------------------------- undo_read_blk64 / undo_read_blk */
